@@ -16,6 +16,7 @@ import (
 	"os"
 	"os/exec"
 	"path/filepath"
+	"regexp"
 	"runtime"
 	"sort"
 	"strconv"
@@ -303,6 +304,17 @@ func run(id string, cfg propCfg, tier string) int {
 		}
 	}
 
+	// C08 thorough: a bounded coverage-guided campaign with the native fuzzer.
+	var fuzzInfo map[string]any
+	if id == "C08" && tier == "thorough" && len(violations) == 0 && inconclusive == "" {
+		v, info := fuzzCampaign(dir, gopatch, testbin, sd)
+		fuzzInfo = info
+		if v != nil {
+			violations = append(violations, *v)
+			kept = append(kept, v.Replay)
+		}
+	}
+
 	level := cfg.Level
 	if level == "" {
 		level = "exploration"
@@ -334,6 +346,9 @@ func run(id string, cfg propCfg, tier string) int {
 	}
 	if inconclusive != "" {
 		cov["inconclusive"] = inconclusive
+	}
+	if fuzzInfo != nil {
+		cov["native_fuzz"] = fuzzInfo
 	}
 	ev := map[string]any{
 		"property_id": id,
@@ -545,3 +560,73 @@ func sortedKeys(m map[string]int) []string {
 // sortedMap renders a counter map deterministically (encoding/json sorts map
 // keys already; this keeps the type explicit).
 func sortedMap(m map[string]int) map[string]int { return m }
+
+var fuzzExecsRe = regexp.MustCompile(`execs: (\d+)`)
+
+// fuzzCampaign runs `-test.fuzz ^FuzzC08$` for a bounded time on all cores.
+// A crasher is converted into a replay file.
+func fuzzCampaign(dir, gopatch, testbin string, sd int64) (*evid.Violation, map[string]any) {
+	dur := os.Getenv("VERIF_C08_FUZZTIME")
+	if dur == "" {
+		dur = "180s"
+	}
+	wd := filepath.Join(dir, "fuzzwd")
+	_ = os.MkdirAll(wd, 0o755)
+	tmp := filepath.Join(dir, "fuzztmp")
+	_ = os.MkdirAll(tmp, 0o755)
+	cmd := exec.Command(testbin, "-test.run", "^$", "-test.fuzz", "^FuzzC08$", "-test.fuzztime", dur,
+		"-test.fuzzcachedir", filepath.Join(dir, "fuzzcache"), "-test.timeout", "0")
+	cmd.Dir = wd
+	cmd.Env = append(goEnv(), "VERIF_GOPATCH="+gopatch, "VERIF_TMP="+tmp, "TMPDIR="+tmp, "VERIF_ROOT="+verifRoot, "VERIF_TIER=thorough")
+	start := time.Now()
+	out, err := cmd.CombinedOutput()
+	info := map[string]any{"fuzztime": dur, "wall_s": int(time.Since(start).Seconds())}
+	if m := fuzzExecsRe.FindAllSubmatch(out, -1); len(m) > 0 {
+		n, _ := strconv.Atoi(string(m[len(m)-1][1]))
+		info["execs"] = n
+	}
+	if err == nil {
+		return nil, info
+	}
+	crashers, _ := filepath.Glob(filepath.Join(wd, "testdata", "fuzz", "FuzzC08", "*"))
+	if len(crashers) == 0 {
+		info["error"] = "fuzz run failed without a crasher: " + tail(out, 600)
+		return nil, info
+	}
+	b, _ := os.ReadFile(crashers[0])
+	patch, target := parseFuzzCorpus(b)
+	// The target index is resolved by the test itself on replay: store the
+	// raw pair in the case.
+	cs := map[string]any{"mode": "fuzz", "patch": patch, "target_index": target}
+	csb, _ := json.Marshal(cs)
+	doc, _ := json.MarshalIndent(map[string]any{"property": "C08", "message": tail(out, 3000), "case": json.RawMessage(csb)}, "", " ")
+	rp := filepath.Join(verifRoot, "replays", fmt.Sprintf("C08-thorough-seed%d-fuzz.json", sd))
+	_ = os.WriteFile(rp, doc, 0o644)
+	info["crasher"] = filepath.Base(crashers[0])
+	return &evid.Violation{Message: "native fuzzing found a failing input:\n" + tail(out, 2500), Replay: rp}, info
+}
+
+// parseFuzzCorpus reads a "go test fuzz v1" file with a []byte and a byte.
+func parseFuzzCorpus(b []byte) ([]byte, int) {
+	var patch []byte
+	idx := 0
+	for _, l := range strings.Split(string(b), "\n") {
+		l = strings.TrimSpace(l)
+		switch {
+		case strings.HasPrefix(l, "[]byte(") && strings.HasSuffix(l, ")"):
+			if s, err := strconv.Unquote(l[len("[]byte(") : len(l)-1]); err == nil {
+				patch = []byte(s)
+			}
+		case strings.HasPrefix(l, "byte(") && strings.HasSuffix(l, ")"):
+			inner := l[len("byte(") : len(l)-1]
+			if len(inner) >= 2 && inner[0] == '\'' {
+				if r, _, _, err := strconv.UnquoteChar(inner[1:len(inner)-1], '\''); err == nil {
+					idx = int(r)
+				}
+			} else if n, err := strconv.Atoi(inner); err == nil {
+				idx = n
+			}
+		}
+	}
+	return patch, idx
+}
